@@ -398,7 +398,7 @@ def decLink (start : Str) (ts : List T) : Except Err (Link × List T) :=
                 | .ok t => .ok ({ start := s, stop := t, role := role, post := some post }, r6)
 
 /-- the `while lexer.peek()[0] != RBRACE` loop of `_decode_dmrs` with the closing `expect_type(RBRACE)`;
-fuel: every round consumes tokens, `decDmrs` passes the token count. -/
+fuel: every round consumes tokens, `decDmrs` passes the token count plus one (never exhausted). -/
 def decItems : Nat → List T → Except Err (List Node × List Link × List T)
   | 0, _ => .error .unmodelled
   | _ + 1, [] => .error .eof
@@ -463,7 +463,7 @@ def decDmrs (ts : List T) : Except Err (DMRS × List T) :=
           match decAttrs r2 with
           | .error e => .error e
           | .ok ((lnk, surf, top, index), r3) =>
-            match decItems r3.length r3 with
+            match decItems (r3.length + 1) r3 with
             | .error e => .error e
             | .ok (ns, ls, rest) =>
               match optInt top with
